@@ -34,6 +34,11 @@ def readback(p, t, attr, val, pre_attrs, new):
             return f'assigning value changed indent {pre_attrs.get("indent")!r} -> {t.indent!r}'
         if isinstance(t, models.BlockComment) and attr == 'indent' and t.value != pre_attrs.get('value'):
             return f'assigning indent changed value {pre_attrs.get("value")!r} -> {t.value!r}'
+        if attr == 'value':
+            # the text a value assignment writes is the text the class's own formatter gives for THAT value (10.50 is not 10.5)
+            fresh = type(t).from_value(val, indent=t.indent) if isinstance(t, models.BlockComment) else type(t).from_value(val)
+            if fresh.raw_text != new:
+                return f'assigning value {val!r} wrote {new!r}; {type(t).__name__}.from_value of the same value writes {fresh.raw_text!r}'
         if attr == 'raw_text' and new != val:
             return f'raw_text reads back {new!r} after assigning {val!r}'
         if hasattr(t, 'value') and type(t).__name__ in RELEX:
@@ -64,6 +69,10 @@ def domain_assignments(rng, t):
         out += [('raw_text', rng.choice(['2020-1-2', '2021/03/04', '0001-01-01']))]
     elif n == 'Number':
         out += [('value', decimal.Decimal(rng.choice(['0', '1', '12.50', '1000000', '0.0001', '1E+3', '1E-7'])))]
+        if rng.random() < 0.35:
+            # the same number written with another precision
+            cur = format(t.value, 'f')
+            out[-1] = ('value', decimal.Decimal(cur + ('0' if '.' in cur else '.00')) if rng.random() < 0.6 or '.' not in cur else t.value.normalize() + 0)
         out += [('raw_text', rng.choice(['1,234.5', '7.', '00.10']))]
     elif n == 'Account':
         out += [('value', rng.choice(docs.ACCOUNTS))]
